@@ -55,6 +55,10 @@ def run_case(ctx, res, spec, nconf):
     test_set = ({k: np.asarray(v) for k, v in xt_model.items()},
                 {k: np.asarray(v) for k, v in yt.items() if k in base_sys.outputs()})
 
+    # a monitoring test set that covers only SOME of the outputs (one upstream output)
+    last_out = sorted(test_set[1])[0]      # the most upstream output: a learner that only looked at it would neglect the rest
+    test_subset = (test_set[0], {last_out: test_set[1][last_out]})
+
     def train(opts):
         tmp = None
         root = None
@@ -77,7 +81,8 @@ def run_case(ctx, res, spec, nconf):
             with contextlib.redirect_stdout(buf), contextlib.redirect_stderr(buf):
                 try:
                         system.fit(max_iter=steps, num_refine=30, max_tol=-np.inf,
-                               test_set=test_set if opts['test_set'] else None, save_interval=opts['save'],
+                               test_set=(test_subset if opts['test_set'] == 'subset' else test_set) if opts['test_set'] else None,
+                               save_interval=opts['save'],
                                plot_interval=opts['plot'], start_test_check=opts.get('start', None))
                 finally:
                     undo()
@@ -96,7 +101,11 @@ def run_case(ctx, res, spec, nconf):
             for t in (False, True) for s in (0, 2) for p in (0, 1, 3) for r in (False, True) for lg in ('none', 'stdout', 'file')]
     rng.shuffle(allc)
     must = [{'test_set': True, 'save': 2, 'plot': 1, 'root': True, 'log': 'stdout', 'watch': True},
-            {'test_set': True, 'save': 0, 'plot': 0, 'root': False, 'log': 'none', 'start': 1}]
+            {'test_set': True, 'save': 0, 'plot': 0, 'root': False, 'log': 'none', 'start': 1},
+            # (a test set that lacks some target outputs is only usable without a root directory: with one, fit tries to
+            #  plot the missing outputs' test errors and raises KeyError — outside this property's option product)
+            {'test_set': 'subset', 'save': 0, 'plot': 0, 'root': False, 'log': 'none'},
+            {'test_set': 'subset', 'save': 0, 'plot': 0, 'root': False, 'log': 'stdout', 'start': 1}]
     for opts in must + allc[:max(0, nconf - len(must))]:
         got = train(opts)
         if got[0] != ref[0]:
